@@ -207,7 +207,10 @@ def fam_threshold(full=False):
     llens = [31, 32, 33] + ([255, 256, 257] if full else [])
     ps += [{'slen': 0, 'llen': x} for x in llens]
     ps += [{'slen': 250, 'llen': 31}, {'slen': 3, 'llen': 33}]
-    return [{'sd': th, 'kinds': ['codec'], 'params': {'codec': ps}}]
+    thm = StructDef('ThM', [Field(1, 'default', ('map', S('i32'), S('i64'))), Field(2, 'default', ('map', S('string'), S('i16'))),
+                            Field(3, 'optional', ('map', S('i64'), S('string')))])
+    pm = [{'mlen': x, 'slen': 1} for x in ([8, 9, 40, 257] if full else [9, 257])]
+    return [{'sd': th, 'kinds': ['codec'], 'params': {'codec': ps}}, {'sd': thm, 'kinds': ['codec'], 'params': {'codec': pm}, 'unordered': True}]
 
 def fam_dec2():
     a = StructDef('D2A', [Field(1, 'default', S('string')), Field(2, 'default', ('list', S('i64'))), Field(3, 'optional', S('i32'), ptr=True),
